@@ -309,6 +309,9 @@ func (client *client) writeLoop() {
 			err = errors.New(fmt.Sprint(re))
 		}
 		client.setError(err)
+		// nothing can be written any more: close the socket so that readLoop (which has no deadline before
+		// CONNECT and none with keep alive 0) returns as well
+		_ = client.rwc.Close()
 	}()
 	for {
 		select {
